@@ -501,4 +501,300 @@ theorem div_exact_then_round (f : Fmt) (a b : Nat) (s t : Bool) (m k : Nat) (e g
     refine ⟨m, k * 2 ^ (g - e).toNat, Nat.mul_ne_zero hk (by simp), hm, by simp [div, ha, hb, hk, hm, h], ?_⟩
     simp [h0, Nat.mul_assoc]
 
+
+
+/-- flipping the sign bit changes nothing but the sign (any bit pattern) -/
+theorem decode_neg (f : Fmt) (b : Nat) :
+    decode f (neg f b) =
+      (match decode f b with
+       | .nan => .nan
+       | .inf s => .inf (!s)
+       | .fin s m e => .fin (!s) m e) := by
+  have hpos : 0 < 2 ^ f.mb := Nat.pos_of_ne_zero (by simp)
+  have hS : 0 < f.signBit := by unfold Fmt.signBit; exact Nat.pos_of_ne_zero (by simp)
+  unfold neg
+  by_cases hn : isNeg f b = true
+  · simp only [hn, if_true]
+    have hge : f.signBit ≤ b := by
+      unfold isNeg at hn
+      by_contra hlt
+      rw [Nat.div_eq_of_lt (Nat.lt_of_not_ge hlt)] at hn
+      simp at hn
+    obtain ⟨c, hc⟩ : ∃ c, b = c + f.signBit := ⟨b - f.signBit, by omega⟩
+    have hnc : isNeg f c = false := by
+      unfold isNeg at hn ⊢
+      rw [hc, Nat.add_div_right _ hS] at hn
+      have : c / f.signBit % 2 = 0 ∨ c / f.signBit % 2 = 1 := by omega
+      rcases this with h | h
+      · simp [h]
+      · have : (c / f.signBit + 1) % 2 = 0 := by omega
+        simp [this] at hn
+    have h1 : b / 2 ^ f.mb % 2 ^ f.eb = c / 2 ^ f.mb % 2 ^ f.eb := by
+      rw [hc, signBit_eq, Nat.add_mul_div_right _ _ hpos, Nat.add_mod_right]
+    have h2 : b % 2 ^ f.mb = c % 2 ^ f.mb := by
+      rw [hc, signBit_eq, Nat.add_mul_mod_self_right]
+    have h3 : b - f.signBit = c := by omega
+    rw [h3]
+    unfold decode
+    simp only [h1, h2, hn, hnc]
+    split <;> (try split) <;> rfl
+  · have hn' : isNeg f b = false := by simpa using hn
+    simp only [hn', Bool.false_eq_true, if_false]
+    have h1 : (b + f.signBit) / 2 ^ f.mb % 2 ^ f.eb = b / 2 ^ f.mb % 2 ^ f.eb := by
+      rw [signBit_eq, Nat.add_mul_div_right _ _ hpos, Nat.add_mod_right]
+    have h2 : (b + f.signBit) % 2 ^ f.mb = b % 2 ^ f.mb := by
+      rw [signBit_eq, Nat.add_mul_mod_self_right]
+    have h3 : isNeg f (b + f.signBit) = true := by
+      unfold isNeg at hn' ⊢
+      rw [Nat.add_div_right _ hS]
+      have : b / f.signBit % 2 = 0 := by
+        have : b / f.signBit % 2 = 0 ∨ b / f.signBit % 2 = 1 := by omega
+        rcases this with h | h
+        · exact h
+        · simp [h] at hn'
+      have : (b / f.signBit + 1) % 2 = 1 := by omega
+      simp [this]
+    unfold decode
+    simp only [h1, h2, h3, hn']
+    split <;> (try split) <;> rfl
+
+
+/-- a bit pattern that decodes as finite or infinite is not a NaN for `isNaN` -/
+theorem isNaN_false_of_decode (f : Fmt) (b : Nat) (h : decode f b ≠ .nan) : isNaN f b = false := by
+  have hM : 0 < 2 ^ f.mb := Nat.pos_of_ne_zero (by simp)
+  have hE : 0 < 2 ^ f.eb := Nat.pos_of_ne_zero (by simp)
+  have hdiv : mag f b / 2 ^ f.mb = b / 2 ^ f.mb % 2 ^ f.eb := by
+    unfold mag; rw [signBit_eq, Nat.mul_comm]; exact Nat.mod_mul_right_div_self _ _ _
+  have hmod : mag f b % 2 ^ f.mb = b % 2 ^ f.mb := by
+    unfold mag; rw [signBit_eq, Nat.mul_comm]; exact Nat.mod_mul_right_mod _ _ _
+  have hsplit := Nat.div_add_mod (mag f b) (2 ^ f.mb)
+  have hef : b / 2 ^ f.mb % 2 ^ f.eb < 2 ^ f.eb := Nat.mod_lt _ hE
+  have hmf : b % 2 ^ f.mb < 2 ^ f.mb := Nat.mod_lt _ hM
+  unfold isNaN
+  simp only [decide_eq_false_iff_not, Nat.not_lt, gt_iff_lt]
+  rw [hdiv, hmod] at hsplit
+  have hinf : f.infBits = f.emaxField * 2 ^ f.mb := rfl
+  have hemax : f.emaxField = 2 ^ f.eb - 1 := rfl
+  by_cases hc : b / 2 ^ f.mb % 2 ^ f.eb = f.emaxField
+  · -- then the mantissa field is zero (else decode = nan)
+    have hm0 : b % 2 ^ f.mb = 0 := by
+      by_contra hne
+      apply h
+      unfold decode
+      simp only [hc, if_true, hne, if_false]
+    rw [hc, hm0] at hsplit
+    rw [hinf, Nat.mul_comm]; omega
+  · have hlt : b / 2 ^ f.mb % 2 ^ f.eb + 1 ≤ f.emaxField := by omega
+    have h1 : 2 ^ f.mb * (b / 2 ^ f.mb % 2 ^ f.eb + 1) ≤ 2 ^ f.mb * f.emaxField := Nat.mul_le_mul_left _ hlt
+    rw [Nat.mul_add, Nat.mul_one] at h1
+    rw [hinf, Nat.mul_comm]; omega
+
+/-- **subtraction is addition of the negated operand** for every right operand that is not a NaN, and the negation only
+    flips the decoded sign — so `a - b` is exact-then-round like `+` -/
+theorem sub_eq_add_neg (f : Fmt) (a b : Nat) (h : decode f b ≠ .nan) : sub f a b = add f a (neg f b) := by
+  unfold sub
+  simp [isNaN_false_of_decode f b h]
+
+/-- `x − x = +0` for every finite `x` (round-to-nearest: an exact zero difference is positive) -/
+theorem sub_self (f : Fmt) (a : Nat) (s : Bool) (m : Nat) (e : Int) (ha : decode f a = .fin s m e) :
+    sub f a a = 0 := by
+  rw [sub_eq_add_neg f a a (by rw [ha]; simp)]
+  have hn : decode f (neg f a) = .fin (!s) m e := by rw [decode_neg, ha]
+  unfold add
+  simp only [ha, hn, Int.le_refl, if_true, Int.sub_self, Int.toNat_zero, Nat.pow_zero, Nat.mul_one]
+  have : sgn s m + sgn (!s) m = 0 := by cases s <;> simp [sgn]
+  simp [this, withSign]
+
+
+
+/-- the special values of `+ * /` by decoded class: NaN propagates; `Inf + Inf` of one sign is that infinity, of
+    opposite signs NaN; `Inf + finite` is the infinity; `Inf · Inf` and `Inf · finite≠0` are infinities of the product
+    sign, `Inf · 0` is NaN; `Inf / Inf` is NaN, `Inf / finite` an infinity, `finite / Inf` a zero of the quotient sign;
+    `finite≠0 / 0` is an infinity of the quotient sign and `0 / 0` NaN (plain IEEE — the evaluator's own `r == 0` test
+    answers first: `float_div_by_zero_configured`) -/
+theorem special_values (f : Fmt) (a b : Nat) :
+    (decode f a = .nan → add f a b = f.nanBits ∧ mul f a b = f.nanBits ∧ div f a b = f.nanBits) ∧
+    (decode f b = .nan → add f a b = f.nanBits ∧ mul f a b = f.nanBits ∧ div f a b = f.nanBits) ∧
+    (∀ s t, decode f a = .inf s → decode f b = .inf t →
+      add f a b = (if s == t then a else f.nanBits) ∧ mul f a b = withSign f (s != t) f.infBits ∧
+      div f a b = f.nanBits) ∧
+    (∀ s t k g, decode f a = .inf s → decode f b = .fin t k g →
+      add f a b = a ∧ mul f a b = (if k = 0 then f.nanBits else withSign f (s != t) f.infBits) ∧
+      div f a b = withSign f (s != t) f.infBits) ∧
+    (∀ s t m e, decode f a = .fin s m e → decode f b = .inf t →
+      add f a b = b ∧ mul f a b = (if m = 0 then f.nanBits else withSign f (s != t) f.infBits) ∧
+      div f a b = withSign f (s != t) 0) ∧
+    (∀ s t m e g, decode f a = .fin s m e → decode f b = .fin t 0 g →
+      div f a b = (if m = 0 then f.nanBits else withSign f (s != t) f.infBits)) := by
+  refine ⟨?_, ?_, ?_, ?_, ?_, ?_⟩
+  · intro h; simp [add, mul, div, h]
+  · intro h
+    cases ha : decode f a <;> simp [add, mul, div, h, ha]
+  · intro s t ha hb; simp [add, mul, div, ha, hb]
+  · intro s t k g ha hb; simp [add, mul, div, ha, hb]
+  · intro s t m e ha hb; simp [add, mul, div, ha, hb]
+  · intro s t m e g ha hb; simp [div, ha, hb]
+
+theorem pick_arith (m q r d : Nat) (hdm : d * q + r = m) (hr : r < d) :
+    (q * d ≤ m ∧ m < (q + 1) * d) ∧
+    (r = 0 → m ≤ q * d ∧ q * d < m + d) ∧
+    (r ≠ 0 → m ≤ (q + 1) * d ∧ (q + 1) * d < m + d) ∧
+    (2 * r ≥ d → 2 * (q + 1) * d ≤ 2 * m + d ∧ 2 * m + d < (2 * (q + 1) + 2) * d) ∧
+    (¬ 2 * r ≥ d → 2 * q * d ≤ 2 * m + d ∧ 2 * m + d < (2 * q + 2) * d) := by
+  have e1 : (q + 1) * d = d * q + d := by ring
+  have e2 : q * d = d * q := by ring
+  have e3 : 2 * (q + 1) * d = 2 * (d * q) + 2 * d := by ring
+  have e4 : (2 * (q + 1) + 2) * d = 2 * (d * q) + 4 * d := by ring
+  have e5 : 2 * q * d = 2 * (d * q) := by ring
+  have e6 : (2 * q + 2) * d = 2 * (d * q) + 2 * d := by ring
+  rw [e1, e2, e3, e4, e5, e6]
+  refine ⟨by omega, fun _ => by omega, fun _ => by omega, fun _ => by omega, fun _ => by omega⟩
+
+/-- `floor` / `ceil` / `round` on a finite value `± m·2^e`: an integral value (`e ≥ 0`) or a zero is returned as it is;
+    otherwise, with `d = 2^(-e)` (so `|x| = m/d = q + r/d`), the result is the signed zero when the chosen integer `N` is 0
+    and `ofRat s N 1` — the float of the INTEGER `N` — else, where `N` is the integer the mathematical function gives:
+    floor: `N = ⌊|x|⌋` for `x > 0`, `⌈|x|⌉` for `x < 0`; ceil: the other way round; round: `⌊|x| + 1/2⌋`, halves away
+    from zero for both signs -/
+theorem integral_functions (f : Fmt) (b : Nat) (s : Bool) (m : Nat) (e : Int) (hb : decode f b = .fin s m e) :
+    ((0 ≤ e ∨ m = 0) → floor f b = b ∧ ceil f b = b ∧ round f b = b) ∧
+    (¬ (0 ≤ e ∨ m = 0) →
+      ∃ Nf Nc Nr : Nat,
+        floor f b = (if Nf = 0 then withSign f s 0 else ofRat f s Nf 1) ∧
+        ceil f b = (if Nc = 0 then withSign f s 0 else ofRat f s Nc 1) ∧
+        round f b = (if Nr = 0 then withSign f s 0 else ofRat f s Nr 1) ∧
+        (s = false → Nf * 2 ^ (-e).toNat ≤ m ∧ m < (Nf + 1) * 2 ^ (-e).toNat) ∧
+        (s = true → m ≤ Nf * 2 ^ (-e).toNat ∧ Nf * 2 ^ (-e).toNat < m + 2 ^ (-e).toNat) ∧
+        (s = true → Nc * 2 ^ (-e).toNat ≤ m ∧ m < (Nc + 1) * 2 ^ (-e).toNat) ∧
+        (s = false → m ≤ Nc * 2 ^ (-e).toNat ∧ Nc * 2 ^ (-e).toNat < m + 2 ^ (-e).toNat) ∧
+        (2 * Nr * 2 ^ (-e).toNat ≤ 2 * m + 2 ^ (-e).toNat ∧ 2 * m + 2 ^ (-e).toNat < (2 * Nr + 2) * 2 ^ (-e).toNat) ∧
+        (Nf ≤ m / 2 ^ (-e).toNat + 1 ∧ Nc ≤ m / 2 ^ (-e).toNat + 1 ∧ Nr ≤ m / 2 ^ (-e).toNat + 1)) := by
+  constructor
+  · intro h
+    simp [floor, ceil, round, toIntegral, hb, h]
+  · intro h
+    have hd : 0 < 2 ^ (-e).toNat := Nat.pos_of_ne_zero (by simp)
+    obtain ⟨p1, p2, p3, p4, p5⟩ := pick_arith m (m / 2 ^ (-e).toNat) (m % 2 ^ (-e).toNat) (2 ^ (-e).toNat)
+      (Nat.div_add_mod m _) (Nat.mod_lt m hd)
+    refine ⟨(if s && m % 2 ^ (-e).toNat != 0 then m / 2 ^ (-e).toNat + 1 else m / 2 ^ (-e).toNat),
+      (if !s && m % 2 ^ (-e).toNat != 0 then m / 2 ^ (-e).toNat + 1 else m / 2 ^ (-e).toNat),
+      (if 2 * (m % 2 ^ (-e).toNat) ≥ 2 ^ (-e).toNat then m / 2 ^ (-e).toNat + 1 else m / 2 ^ (-e).toNat),
+      ?_, ?_, ?_, ?_, ?_, ?_, ?_, ?_, ?_⟩
+    · simp [floor, toIntegral, hb, h]
+    · simp [ceil, toIntegral, hb, h]
+    · simp [round, toIntegral, hb, h]
+    · intro hs; subst hs
+      simpa using p1
+    · intro hs; subst hs
+      by_cases h0 : m % 2 ^ (-e).toNat = 0
+      · simpa [h0] using p2 h0
+      · simpa [h0] using p3 h0
+    · intro hs; subst hs
+      simpa using p1
+    · intro hs; subst hs
+      by_cases h0 : m % 2 ^ (-e).toNat = 0
+      · simpa [h0] using p2 h0
+      · simpa [h0] using p3 h0
+    · by_cases h2 : 2 * (m % 2 ^ (-e).toNat) ≥ 2 ^ (-e).toNat
+      · simp only [h2, if_true]; exact p4 h2
+      · simp only [h2, if_false]; exact p5 h2
+    · refine ⟨?_, ?_, ?_⟩ <;> split <;> omega
+
+
+
+theorem roundExp_int_le_zero (f : Fmt) (N : Nat) (hN : N ≠ 0) (hlt : N < 2 ^ (f.mb + 1)) (hemin : f.emin ≤ 0) :
+    roundExp f N 1 ≤ 0 := by
+  have h1 : Nat.log2 1 = 0 := by decide
+  have h2 : N.log2 < f.mb + 1 := (Nat.log2_lt hN).mpr hlt
+  unfold roundExp
+  simp only [h1]
+  split <;> split <;> omega
+
+/-- **the float of a small integer is that integer**: for `0 < N < 2^(mb+1)` (in a format whose exponent range holds
+    the integers: `bias + mb + 1 < emaxField`, true of binary64 and binary32) `ofRat f neg N 1` decodes to
+    `± q · 2^E` with `E ≤ 0` and `q = N · 2^(-E)` — exactly `± N`, no rounding, no overflow -/
+theorem ofRat_int_exact (f : Fmt) (heb : 1 ≤ f.eb) (neg : Bool) (N : Nat) (hN : N ≠ 0) (hlt : N < 2 ^ (f.mb + 1))
+    (hemin : f.emin ≤ 0) (hfmt : f.bias + f.mb + 1 < f.emaxField) :
+    ∃ (q : Nat) (E : Int), decode f (ofRat f neg N 1) = .fin neg q E ∧ E ≤ 0 ∧ q = N * 2 ^ (-E).toNat := by
+  have hM : 0 < 2 ^ f.mb := Nat.pos_of_ne_zero (by simp)
+  have hre := roundExp_int_le_zero f N hN hlt hemin
+  have hge := roundExp_ge f N 1
+  have hsc2 : (scaled N 1 (roundExp f N 1)).2 = 1 := by
+    unfold scaled
+    split
+    · rename_i h
+      have : roundExp f N 1 = 0 := by omega
+      simp [this]
+    · rfl
+  have hsc1 : (scaled N 1 (roundExp f N 1)).1 = N * 2 ^ (-(roundExp f N 1)).toNat := by
+    unfold scaled
+    split
+    · rename_i h
+      have : roundExp f N 1 = 0 := by omega
+      simp [this]
+    · rfl
+  have hq : rne (scaled N 1 (roundExp f N 1)).1 (scaled N 1 (roundExp f N 1)).2 = N * 2 ^ (-(roundExp f N 1)).toNat := by
+    rw [hsc2, hsc1]
+    have := rne_exact (N * 2 ^ (-(roundExp f N 1)).toNat) 1 (by omega)
+    simpa using this
+  have hup := roundExp_upper f N 1 hN (by omega)
+  rw [hsc2, hsc1, Nat.mul_one] at hup
+  have hup' : N * 2 ^ (-(roundExp f N 1)).toNat < 2 * 2 ^ f.mb := by rw [Nat.pow_succ] at hup; omega
+  have hshape := roundMag_shape f N 1 hN
+  rw [hq] at hshape
+  -- the exponent index
+  have hemin_def : f.emin = 1 - (f.bias : Int) - (f.mb : Int) := rfl
+  have hK : (roundExp f N 1 - f.emin).toNat + 1 < f.emaxField := by omega
+  have hE : f.infBits = f.emaxField * 2 ^ f.mb := rfl
+  have hx : (roundExp f N 1 - f.emin).toNat * 2 ^ f.mb + N * 2 ^ (-(roundExp f N 1)).toNat < f.infBits := by
+    rw [hE]
+    have : ((roundExp f N 1 - f.emin).toNat + 2) * 2 ^ f.mb ≤ f.emaxField * 2 ^ f.mb := Nat.mul_le_mul_right _ (by omega)
+    have e : ((roundExp f N 1 - f.emin).toNat + 2) * 2 ^ f.mb = (roundExp f N 1 - f.emin).toNat * 2 ^ f.mb + 2 * 2 ^ f.mb := by ring
+    omega
+  refine ⟨N * 2 ^ (-(roundExp f N 1)).toNat, roundExp f N 1, ?_, hre, rfl⟩
+  unfold ofRat
+  rw [hshape, Nat.min_eq_left (Nat.le_of_lt hx), decode_withSign f neg _ (Nat.lt_trans hx (infBits_lt_signBit f))]
+  by_cases hk0 : (roundExp f N 1 - f.emin).toNat = 0
+  · have hree : roundExp f N 1 = f.emin := by omega
+    rw [hk0]
+    by_cases hsub : N * 2 ^ (-(roundExp f N 1)).toNat < 2 ^ f.mb
+    · simp only [Nat.zero_mul, Nat.zero_add]
+      rw [decode_encode_subnormal f _ hsub heb, hree]
+    · rw [decode_encode_normal f 0 _ (by omega) hup' (by omega)]
+      simp [hree]
+  · have habove : f.emin < roundExp f N 1 := by omega
+    have hlow := roundExp_lower f N 1 hN (by omega) habove
+    rw [hsc2, hsc1, Nat.mul_one] at hlow
+    rw [decode_encode_normal f _ _ hlow hup' hK]
+    have : (((roundExp f N 1 - f.emin).toNat : Nat) : Int) + f.emin = roundExp f N 1 := by omega
+    rw [this]
+
+
+
+/-- a decoded finite magnitude has at most `mb+1` bits -/
+theorem decode_fin_bound (f : Fmt) (b : Nat) (s : Bool) (m : Nat) (e : Int) (h : decode f b = .fin s m e) :
+    m < 2 * 2 ^ f.mb := by
+  have hM : 0 < 2 ^ f.mb := Nat.pos_of_ne_zero (by simp)
+  have hmf : b % 2 ^ f.mb < 2 ^ f.mb := Nat.mod_lt _ hM
+  unfold decode at h
+  simp only at h
+  split at h
+  · split at h <;> cases h
+  · split at h
+    · injection h with _ h2 _; omega
+    · injection h with _ h2 _; omega
+
+/-- the integers `floor` / `ceil` / `round` choose for a non-integral finite value are small: at most `2^mb`, so
+    `ofRat_int_exact` applies — the results are EXACTLY those integers -/
+theorem integral_pick_small (f : Fmt) (b : Nat) (s : Bool) (m : Nat) (e : Int) (hb : decode f b = .fin s m e)
+    (he : e < 0) (N : Nat) (hN : N ≤ m / 2 ^ (-e).toNat + 1) : N < 2 ^ (f.mb + 1) := by
+  have hm := decode_fin_bound f b s m e hb
+  have hM : 0 < 2 ^ f.mb := Nat.pos_of_ne_zero (by simp)
+  have hd : 2 ≤ 2 ^ (-e).toNat := by
+    have : 1 ≤ (-e).toNat := by omega
+    calc 2 = 2 ^ 1 := rfl
+      _ ≤ 2 ^ (-e).toNat := Nat.pow_le_pow_right (by omega) this
+  have h1 : m / 2 ^ (-e).toNat ≤ m / 2 := Nat.div_le_div_left hd (by omega)
+  rw [Nat.pow_succ]
+  omega
+
 end SoftFloat
